@@ -1,7 +1,12 @@
 (* Driver for SM/SMGate.v.
    SUMMARY = (ISBLOCK NCROSSINGS (KIND...) CROSSING_WEIGHT TRIALS (FACTOR...) (CROSSING...))
    FACTOR  = (DERIVED WKIND (ARG...) (WEIGHT...))   WKIND = transition | within | other   ARG = n | none
-   KIND    = class name of the constraint *)
+   KIND    = class name of the constraint
+   (gate SUMMARY)  -> refuse ... | crash ... | accept MAX (levels) M PRE LEN (handed) (ignored)
+   (classify KIND) -> KIND' refused|passes user|internal realised|unrealised
+                      (KIND' = the model's reading of the class name: Other if it is not a class of constraint.py;
+                       refused = listed in the isinstance chain of SMGen.sample, as of /repo commit cac238c which
+                       added ExactlyKInARow, ExactlyKMultipleInARow, LatinSquare, Sequential) *)
 open Wire
 let kind_of_sexp = function
   | A "Cross" -> SMGate.KCross | A "Consistency" -> SMGate.KConsistency | A "Sustain" -> SMGate.KSustain
@@ -48,4 +53,10 @@ let () =
        "accept " ^ show_opt show_nat p.SMGate.p_maximum ^ " " ^ show_list show_nat p.SMGate.p_levels ^ " "
        ^ show_nat p.SMGate.p_M ^ " " ^ show_nat p.SMGate.p_pre ^ " " ^ show_nat p.SMGate.p_length ^ " "
        ^ show_list show_kind p.SMGate.p_handed ^ " " ^ show_list show_kind p.SMGate.p_ignored)
+    | _ -> "!args");
+  register "classify" (function [k] ->
+    let k = kind_of_sexp k in
+    show_kind k ^ " " ^ (if SMGate.refused_kind k then "refused" else "passes") ^ " "
+    ^ (if SMGate.user_kind k then "user" else "internal") ^ " "
+    ^ (if SMGate.realised_kind k then "realised" else "unrealised")
     | _ -> "!args")
